@@ -299,6 +299,7 @@ func init() {
 		}
 		res = append(res, compositionAcrossFiles(c, &fails)...)
 		res = append(res, symlinkLayouts(c, &fails)...)
+		res = append(res, unusualFileNames(c, &fails)...)
 		cliEqualsLibraryFiles(c, buildCLI(c), &fails)
 		res = append(res, nearDupAcrossFiles(c, &fails)...)
 		breaks(c, res, map[string]bool{"run-json": true, "gen": true, "compile": true, "summary": true}, fails > 0)
